@@ -242,3 +242,18 @@ func checkC19(c *Ctx) {
 	c.floor("T-SHAPE(ServicesFilter)", 5, "default backend, paths table, rules, ServicesFilter")
 	c.floor("T-SHAPE(kind-filter)", 5, "node x2, involved x2, selector-match")
 }
+
+func init() {
+	props = append(props, propSpec{ID: "C09", Level: "other", Run: checkC09,
+		Explanation: "Construction shape of the eight generated joins (result = destination's CloneForFilter; all four handler slots set; OnInitialize refilters with filterFn of its argument, the other three re-list the source cache at callback time and refilter with filterFn of that list; monitor on the source; no Refilter on the construction path), resource release in package join (every closable obtained is, on each exit path, returned, closed, or closed by a goroutine waiting on the returned value's Done()), nothing handed in by the caller is ever closed, wrappers pass the selection filter of the source's package. Selection semantics rest on C06/C07/C16/C19; equality with the template is C20.",
+		Assumptions: []string{"the quiescent-state equality itself is not decided"}})
+}
+
+func checkC09(c *Ctx) {
+	checkGeneratedJoinShape(c)
+	checkJoinRelease(c)
+	checkJoinNoCloseOfParams(c)
+	checkFilterSubscriptionTable(c)
+	checkMonitorTable(c)
+	c.floor("T-FLOW(join)", 60, "8 joins x 8 obligations + 8 wrappers")
+}
